@@ -262,6 +262,10 @@ def run_case(chk, drv, case, stats):
 
 
 def _run_case(chk, drv, case, stats):
+    if case['fam'] == 'generic':
+        # another operator on the same grid, layout block and dt but with other constants is built first in the same process
+        # (a scan over iota / R0): nothing may be shared between operators except what depends on the grid alone
+        build(dict(case, iota=(0.0 if case['sub'] % 2 else -2.5 * case['iota']), R0=(None if case.get('R0') is not None else 7.0)))
     B = build(case)
     fa, bs, nz, nq, nL = B['fa'], B['bs'], case['nz'], case['nq'], case['nL']
     rng = B['rng']
